@@ -91,11 +91,15 @@ impl LruManager {
         let idx = if let Some(free_idx) = self.free_list.pop() {
             free_idx
         } else {
-            // Evict LRU tail to make room
-            let Some(evicted) = self.evict_tail() else {
+            // Evict LRU tail to make room; the freed slot comes back
+            // through the free list
+            if self.evict_tail().is_none() {
+                return false;
+            }
+            let Some(free_idx) = self.free_list.pop() else {
                 return false;
             };
-            evicted
+            free_idx
         };
 
         // Initialize the entry
@@ -113,7 +117,9 @@ impl LruManager {
 
     /// Evict the least recently used entry (LRU tail).
     ///
-    /// Returns the freed slot index, or `None` if the list is empty.
+    /// The freed slot is returned to the free list so that a later
+    /// `touch` can reuse it. Returns the freed slot index, or `None` if
+    /// the list is empty.
     ///
     pub fn evict_tail(&mut self) -> Option<u32> {
         let tail = self.header.lru_tail;
@@ -125,6 +131,7 @@ impl LruManager {
         self.key_map.remove(&entry.ekey);
         self.unlink(tail);
         self.entries[tail as usize] = LruFileEntry::empty();
+        self.free_list.push(tail);
 
         Some(tail)
     }
